@@ -457,3 +457,55 @@ func VfC11_StringSites() {
 	vfAssert("C11.sites.roundtrip", ok)
 	vfAssert("C11.sites.print-fixpoint", m2.String() == y)
 }
+
+// VfC11_ParseDecoratedComdat: a numerically named global or function in a
+// comdat whose name is not its own name but the *decorated spelling* of it -
+// the digits between two quote bytes, which is what `Name()` of a numerically
+// named global returns; with a leading zero the canonical number between the
+// quotes (`007` -> `"7"`).  A comdat of the plain name is defined too.  The
+// printer may abbreviate `comdat($x)` to `comdat` only when $x is the name of
+// the global itself: parsed, printed and parsed again, the global is still in
+// the comdat with the quote bytes in its name.
+//
+//vf:unwind 200
+//vf:shards 4
+func VfC11_ParseDecoratedComdat() {
+	s := hDigits("s", 2, '0', '9')
+	deco := "\"" + s + "\""
+	if s[0] == '0' {
+		deco = "\"" + s[1:] + "\""
+	}
+	isFunc := vfChoice("func", 2) == 1
+	g, cPlain, cDeco := enc.GlobalName(s), enc.ComdatName(s), enc.ComdatName(deco)
+	var src string
+	if isFunc {
+		src = cDeco + " = comdat any\n" + cPlain + " = comdat any\ndefine void " + g + "() comdat(" + cDeco + ") {\n\tret void\n}\n"
+	} else {
+		src = cDeco + " = comdat any\n" + cPlain + " = comdat any\n" + g + " = global i32 0, comdat(" + cDeco + ")\n"
+	}
+	m, err := ParseString("t.ll", src)
+	vfReach("C11.parse.decorated-comdat")
+	vfObserveStr("src", src)
+	vfAssert("C11.decorated-comdat.parse-accepts", err == nil)
+	if err != nil {
+		return
+	}
+	y := m.String()
+	vfObserveStr("y", y)
+	m2, err2 := ParseString("t.ll", y)
+	vfAssert("C11.decorated-comdat.print-accepted", err2 == nil)
+	if err2 != nil {
+		return
+	}
+	var cd *ir.ComdatDef
+	if isFunc {
+		cd = m2.Funcs[0].Comdat
+	} else {
+		cd = m2.Globals[0].Comdat
+	}
+	vfAssert("C11.decorated-comdat.bound", cd != nil)
+	if cd != nil {
+		vfAssert("C11.decorated-comdat.same-comdat", cd.Name == deco)
+	}
+	vfAssert("C11.decorated-comdat.print-fixpoint", m2.String() == y)
+}
